@@ -9,9 +9,17 @@ points, children run directly / on another thread through a captured `Frame::cur
 pushed as typed `TraceId`/`SpanId`, as hex strings (both cases) and as integers, and under an
 incoming trace id WITHOUT a usable span id (`SpanCtxt::new(Some(t), None, None).push(ctxt)`, a lone
 `trace_id` property in every form, a trace id next to an all-zero / unparseable span id), also
-handed to another thread through a frame captured inside it. Every tree runs on
-two runtimes: a generic `Runtime<.., ThreadLocalCtxt, ..>` static and a type-erased `AmbientSlot`.
-The rng is a counter (never repeats, never zero).
+handed to another thread through a frame captured inside it. Children are also run
+through NON-span frames captured inside a span (`Frame::current(ctxt)` for thread hand-offs and for
+group members handed over as tasks, `Frame::push(ctxt, ("plain", 1))` via `call` / `in_fn` on a new
+thread / `in_future`). Every tree runs on a generic `Runtime<.., ThreadLocalCtxt, ..>` static and on
+a type-erased `AmbientSlot`, plus (rotating) one of: the trace-context runtime
+`TraceparentCtxt<ThreadLocalCtxt>` + always-sampling `TraceparentFilter` as a typed static, the same
+as `emit_traceparent::setup()` installs it in an `AmbientSlot` (both with every node enabled: a
+rejected span unsamples its subtree there by design, see C18), and a runtime over `ListCtxt`, a
+list-backed context that relies on the trait's default `open_push`, so its current props repeat
+every key once per nesting level with the innermost value first. The rng is a counter (never
+repeats, never zero).
 
 Oracle (a model written from the statement, walked over the tree):
 
@@ -43,6 +51,7 @@ use emit::{
     runtime::{AmbientClock, AmbientCtxt, AmbientEmitter, AmbientFilter, AmbientRng, AmbientSlot, Runtime},
     Props,
 };
+use emit_traceparent::{TraceparentCtxt, TraceparentFilter};
 use spantree::*;
 use vcommon::{
     rec::{CountingRng, FakeClock},
@@ -99,7 +108,80 @@ impl_env!(
     A_SLOT.get()
 );
 
+// --- the trace-context runtime (always sampled), typed and as `emit_traceparent::setup()` builds it ----
+
+type AlwaysFn = fn(&emit::SpanCtxt) -> bool;
+
+fn always(_: &emit::SpanCtxt) -> bool {
+    true
+}
+
+type TpRt = Runtime<Routed, emit::and::And<filter::FromFn, TraceparentFilter<AlwaysFn>>, TraceparentCtxt<ThreadLocalCtxt>, FakeClock, CountingRng>;
+
+static TP_RT: LazyLock<TpRt> = LazyLock::new(|| {
+    Runtime::build(
+        Routed,
+        emit::and::And::new(filter::FromFn::new(en_filter), TraceparentFilter::new_with_sampler(always as AlwaysFn)),
+        TraceparentCtxt::new(ThreadLocalCtxt::new()),
+        clock(),
+        CountingRng::starting_at(1 << 44),
+    )
+});
+
+impl_env!(
+    EnvTraceparent,
+    "traceparent-runtime",
+    false,
+    [
+        Routed,
+        emit::and::And<filter::FromFn, TraceparentFilter<AlwaysFn>>,
+        TraceparentCtxt<ThreadLocalCtxt>,
+        FakeClock,
+        CountingRng
+    ],
+    &TP_RT
+);
+
+static TP_SLOT: AmbientSlot = AmbientSlot::new();
+
+impl_env!(
+    EnvTraceparentSlot,
+    "traceparent-setup-slot",
+    false,
+    [
+        AmbientEmitter<'static>,
+        AmbientFilter<'static>,
+        AmbientCtxt<'static>,
+        AmbientClock<'static>,
+        AmbientRng<'static>
+    ],
+    TP_SLOT.get()
+);
+
+// --- a context whose current props repeat keys (default `open_push` over a list) -----------------
+
+type ListRt = Runtime<Routed, filter::FromFn, ListCtxt, FakeClock, CountingRng>;
+
+static LIST_RT: LazyLock<ListRt> =
+    LazyLock::new(|| Runtime::build(Routed, filter::FromFn::new(en_filter), ListCtxt, clock(), CountingRng::starting_at(1 << 48)));
+
+impl_env!(
+    EnvList,
+    "list-ctxt-default-open_push",
+    false,
+    [Routed, filter::FromFn, ListCtxt, FakeClock, CountingRng],
+    &LIST_RT
+);
+
 fn init_envs() {
+    LazyLock::force(&TP_RT);
+    LazyLock::force(&LIST_RT);
+    // exactly what `emit_traceparent::setup()` builds, with the emitter / clock / rng replaced
+    let _ = emit_traceparent::setup()
+        .emit_to(Routed)
+        .with_clock(clock())
+        .with_rng(CountingRng::starting_at(1 << 52))
+        .init_slot(&TP_SLOT);
     LazyLock::force(&G_RT);
     A_SLOT
         .init(Runtime::build(
@@ -151,9 +233,33 @@ struct Oracle<'a> {
     n_groups_interleaved: u64,
     n_incoming: u64,
     n_trace_only: u64,
+    n_plain: u64,
+    n_wrapped_members: u64,
     max_enabled_depth: u32,
 }
 
+/// Does the text of an id on an event denote `want`? Ids pushed by a span are typed (hex). Ids an
+/// event reads straight from pushed incoming props keep the form they were pushed in on a plain
+/// context (decimal for integers) but are typed (hex) on the trace-context runtime: either is fine.
+fn id_text_is(text: Option<&str>, want: Option<u128>, amb: &Amb) -> bool {
+    match (text, want) {
+        (None, None) => true,
+        (Some(t), Some(w)) => {
+            let hex = u128::from_str_radix(t, 16).ok() == Some(w);
+            let dec = t.parse::<u128>().ok() == Some(w);
+            if amb.src == "span" {
+                hex
+            } else if amb.decimal {
+                hex || dec
+            } else {
+                hex
+            }
+        }
+        _ => false,
+    }
+}
+
+#[allow(dead_code)]
 fn parse_id(text: &str, decimal: bool) -> Option<u128> {
     if decimal {
         text.parse::<u128>().ok()
@@ -183,6 +289,11 @@ fn via_name(v: &Via) -> &'static str {
             IdForm::Int => "props-int",
         },
         Via::TraceOnly { how, .. } => how.name(),
+        Via::Plain { how } => match how {
+            PlainHow::Call => "plain-frame-call",
+            PlainHow::Thread => "plain-frame-thread",
+            PlainHow::Future => "plain-frame-future",
+        },
         Via::Header { .. } => "header",
         Via::Remote => "remote",
     }
@@ -230,6 +341,8 @@ impl<'a> Oracle<'a> {
             n_groups_interleaved: 0,
             n_incoming: 0,
             n_trace_only: 0,
+            n_plain: 0,
+            n_wrapped_members: 0,
             max_enabled_depth: 0,
         }
     }
@@ -397,11 +510,9 @@ impl<'a> Oracle<'a> {
                         );
                     }
                     for e in &evs {
-                        let got_t = e.trace.as_deref().map(|t| parse_id(t, inside.decimal));
-                        let got_s = e.span.as_deref().map(|t| parse_id(t, inside.decimal));
-                        let want_t = inside.ids.trace.map(Some);
-                        let want_s = inside.ids.span.map(|s| Some(s as u128));
-                        if got_t != want_t || (!inside.loose_span && got_s != want_s) {
+                        let trace_ok = id_text_is(e.trace.as_deref(), inside.ids.trace, &inside);
+                        let span_ok = id_text_is(e.span.as_deref(), inside.ids.span.map(|s| s as u128), &inside);
+                        if !trace_ok || (!inside.loose_span && !span_ok) {
                             self.bad(
                                 format!("event-ids:{}:ambient={}", k, inside.src),
                                 format!(
@@ -432,6 +543,23 @@ impl<'a> Oracle<'a> {
                             let o = self.expect_reads(node.id, Point::ViaIn(i), &inside.ids, true, &sig);
                             self.expect_reads(node.id, Point::ViaOut(i), &inside.ids, true, &sig);
                             if let Some(o) = o {
+                                if o.thread == enter.thread {
+                                    self.bad(
+                                        "interpreter:handoff-on-same-thread".into(),
+                                        format!("thread hand-off of node {} step {} ran on the parent's thread", node.id, i),
+                                    );
+                                }
+                            }
+                            inside.clone()
+                        }
+                        Via::Plain { how } => {
+                            // a non-span frame captured inside whatever is current: the ids stay
+                            self.n_plain += 1;
+                            let sig = format!("non-span-frame-ids:{}:{}", vn, k);
+                            let o = self.expect_reads(node.id, Point::ViaIn(i), &inside.ids, true, &sig);
+                            self.expect_reads(node.id, Point::ViaOut(i), &inside.ids, true, &format!("ambient-not-restored:after-child:inside-{}", vn));
+                            if let (PlainHow::Thread, Some(o)) = (how, o) {
+                                self.n_handoffs += 1;
                                 if o.thread == enter.thread {
                                     self.bad(
                                         "interpreter:handoff-on-same-thread".into(),
@@ -526,8 +654,17 @@ impl<'a> Oracle<'a> {
                             self.n_groups_interleaved += 1;
                         }
                     }
-                    for n in nodes {
-                        self.walk(n, &inside, "group", child_depth, child_under_disabled);
+                    let sched = match step {
+                        Step::Group { sched, .. } => *sched,
+                        _ => 0,
+                    };
+                    for (m, n) in nodes.iter().enumerate() {
+                        // some members are handed over inside a captured `Frame::current(ctxt)`
+                        let wrapped = member_is_wrapped(sched, m);
+                        if wrapped {
+                            self.n_wrapped_members += 1;
+                        }
+                        self.walk(n, &inside, if wrapped { "group-task-in-captured-frame" } else { "group" }, child_depth, child_under_disabled);
                     }
                     self.expect_reads(node.id, Point::After(i), &inside.ids, true, &ambient_sig("after-group"));
                 }
@@ -696,7 +833,12 @@ fn eval<X: Env>(r: &mut Report, seed: u64, index: u64, tree: &Node) {
     r.observe("groups-actually-interleaved", o.n_groups_interleaved);
     r.observe("incoming-id-frames", o.n_incoming);
     r.observe("incoming-trace-id-without-usable-span-id", o.n_trace_only);
+    r.observe("non-span-frames-with-own-props", o.n_plain);
+    r.observe("group-tasks-inside-a-captured-frame", o.n_wrapped_members);
     r.observe(&format!("trees:{}", o.env), 1);
+    if o.max_enabled_depth >= 4 {
+        r.observe(&format!("trees-with-4-or-more-nested-enabled-spans:{}", o.env), 1);
+    }
     r.observe("nodes", tree.count() as u64 - 1);
 
     let mut f = Features::default();
@@ -737,6 +879,44 @@ fn eval<X: Env>(r: &mut Report, seed: u64, index: u64, tree: &Node) {
     }
 }
 
+/// On the trace-context runtime a span rejected by a filter makes everything below it unsampled
+/// (by design: C18), so "children attach to the nearest enabled ancestor" is not its contract.
+/// Those runtimes run the same tree with every node enabled.
+fn all_enabled(n: &Node) -> Node {
+    let mut n = n.clone();
+    n.enabled = true;
+    for s in n.steps.iter_mut() {
+        match s {
+            Step::Child { node, .. } => *node = all_enabled(node),
+            Step::Group { nodes, .. } => {
+                for m in nodes.iter_mut() {
+                    *m = all_enabled(m);
+                }
+            }
+            _ => {}
+        }
+    }
+    n
+}
+
+const ENV_NAMES: [&str; 5] = [
+    "generic-runtime",
+    "ambient-slot",
+    "traceparent-runtime",
+    "traceparent-setup-slot",
+    "list-ctxt-default-open_push",
+];
+
+fn eval_env(r: &mut Report, env: usize, seed: u64, index: u64, tree: &Node) {
+    match env {
+        0 => eval::<EnvGeneric>(r, seed, index, tree),
+        1 => eval::<EnvAmbient>(r, seed, index, tree),
+        2 => eval::<EnvTraceparent>(r, seed, index, &all_enabled(tree)),
+        3 => eval::<EnvTraceparentSlot>(r, seed, index, &all_enabled(tree)),
+        _ => eval::<EnvList>(r, seed, index, tree),
+    }
+}
+
 fn main() {
     let args = Args::parse();
     let mut r = Report::new(
@@ -752,12 +932,12 @@ fn main() {
         let seed = case.get("seed").and_then(|v| v.as_u64()).unwrap_or(args.seed);
         let index = case.get("index").and_then(|v| v.as_u64()).unwrap_or(0);
         let tree = case_tree(seed, index);
-        match case.get("env").and_then(|v| v.as_str()) {
-            Some("ambient-slot") => eval::<EnvAmbient>(&mut r, seed, index, &tree),
-            Some(_) => eval::<EnvGeneric>(&mut r, seed, index, &tree),
+        match case.get("env").and_then(|v| v.as_str()).and_then(|n| ENV_NAMES.iter().position(|e| *e == n)) {
+            Some(e) => eval_env(&mut r, e, seed, index, &tree),
             None => {
-                eval::<EnvGeneric>(&mut r, seed, index, &tree);
-                eval::<EnvAmbient>(&mut r, seed, index, &tree);
+                for e in 0..5 {
+                    eval_env(&mut r, e, seed, index, &tree);
+                }
             }
         }
         std::process::exit(r.finish());
@@ -768,12 +948,14 @@ fn main() {
     let n = if cfg!(miri) { args.get_u64("trees", 10) } else { args.n(4_000, 100_000) };
     par_cases(&mut r, &args, n, |i, r| {
         let tree = case_tree(seed, i);
-        // natively every tree runs on both runtimes; under Miri (seconds per tree) they alternate
-        if !cfg!(miri) || i % 2 == 0 {
-            eval::<EnvGeneric>(r, seed, i, &tree);
-        }
-        if !cfg!(miri) || i % 2 == 1 {
-            eval::<EnvAmbient>(r, seed, i, &tree);
+        // natively every tree runs on both thread-local runtimes plus one of the other three
+        // (rotating); under Miri (seconds per tree) one runtime per tree, rotating over the five
+        if cfg!(miri) {
+            eval_env(r, (i % 5) as usize, seed, i, &tree);
+        } else {
+            eval_env(r, 0, seed, i, &tree);
+            eval_env(r, 1, seed, i, &tree);
+            eval_env(r, 2 + (i % 3) as usize, seed, i, &tree);
         }
     });
 
